@@ -315,10 +315,13 @@ class FunctionRun:
         else:
             exc = val
             match = None
-            for e, cond in rz.items():
-                if exc_is_subclass(exc.cls, e):
-                    match = (e, cond)
-                    break
+            from .engine import EXC_BASES
+
+            c = exc.cls  # most specific declared class first
+            while c is not None and match is None:
+                if c in rz:
+                    match = (c, rz[c])
+                c = EXC_BASES.get(c, "Exception" if c not in ("Exception", "BaseException") and c not in EXC_BASES else None)
             if match is None:
                 cx.oblige(f"unspecified-exception:{exc.cls}", "no-exception", z3.BoolVal(False), clause=f"no {exc.cls} outside the contract", line=exc.line)
             else:
